@@ -19,8 +19,16 @@ pub fn diff_tag(a: &Value, b: &Value, cur: &str) -> Option<String> {
             keys.sort();
             keys.dedup();
             for k in keys {
-                let next = if cur.is_empty() || is_tag_key(k) { k.as_str() } else { cur };
-                let r = diff_tag(x.get(k).unwrap_or(&Value::Null), y.get(k).unwrap_or(&Value::Null), next);
+                let next = if cur.is_empty() || is_tag_key(k) {
+                    k.as_str()
+                } else {
+                    cur
+                };
+                let r = diff_tag(
+                    x.get(k).unwrap_or(&Value::Null),
+                    y.get(k).unwrap_or(&Value::Null),
+                    next,
+                );
                 if r.is_some() {
                     return r;
                 }
@@ -29,7 +37,11 @@ pub fn diff_tag(a: &Value, b: &Value, cur: &str) -> Option<String> {
         }
         (Value::Array(x), Value::Array(y)) => {
             for i in 0..x.len().max(y.len()) {
-                let r = diff_tag(x.get(i).unwrap_or(&Value::Null), y.get(i).unwrap_or(&Value::Null), cur);
+                let r = diff_tag(
+                    x.get(i).unwrap_or(&Value::Null),
+                    y.get(i).unwrap_or(&Value::Null),
+                    cur,
+                );
                 if r.is_some() {
                     return r;
                 }
@@ -100,6 +112,10 @@ pub fn msg_oracle(c: &MutCase, obs: &mut Obs) -> Vec<Violation> {
     let mut out = Vec::new();
     let ops = msg_ops(&c.mt);
     let x = c.enveloped();
+    if crate::refs::has_long_number(&x) {
+        obs.excluded("amount-beyond-f64-precision (C06 reports it)");
+        return out;
+    }
     let m1 = match (ops.parse_full)(&x) {
         Ok(m) => m,
         Err(_) => {
@@ -109,25 +125,51 @@ pub fn msg_oracle(c: &MutCase, obs: &mut Obs) -> Vec<Violation> {
     };
     obs.class(&format!("msg:accepted:{}", c.mutation));
     obs.nontrivial_str(&x);
-    obs.sample(&format!("msg:{}", c.mutation), || json!({"mt": c.mt, "mutation": c.mutation, "text": x}));
+    obs.sample(
+        &format!("msg:{}", c.mutation),
+        || json!({"mt": c.mt, "mutation": c.mutation, "text": x}),
+    );
     let t1 = m1.mt_message.clone();
     let m2 = match (ops.parse_full)(&t1) {
         Ok(m) => m,
         Err(e) => {
             if !e.is_panic() {
-                out.push(viol(format!("C02|msg|MT{}|reparse-rejected|{}", c.mt, crate::props::c03::error_tag(&e)), format!("serialised output is rejected: {}\ninput:\n{}\noutput:\n{}", e.text(), x, t1)));
+                out.push(viol(
+                    format!(
+                        "C02|msg|MT{}|reparse-rejected|{}",
+                        c.mt,
+                        crate::props::c03::error_tag(&e)
+                    ),
+                    format!(
+                        "serialised output is rejected: {}\ninput:\n{}\noutput:\n{}",
+                        e.text(),
+                        x,
+                        t1
+                    ),
+                ));
             }
             return out;
         }
     };
     if m2.json != m1.json {
         let tag = diff_tag(&m1.json, &m2.json, "").unwrap_or_default();
-        out.push(viol(format!("C02|msg|MT{}|value-differs|{}", c.mt, tag), format!("second parse differs at {tag}:\nfirst  {}\nsecond {}", m1.json, m2.json)));
+        out.push(viol(
+            format!("C02|msg|MT{}|value-differs|{}", c.mt, tag),
+            format!(
+                "second parse differs at {tag}:\nfirst  {}\nsecond {}",
+                m1.json, m2.json
+            ),
+        ));
     }
     if m2.mt_message != t1 {
         let (_, a) = tokenize(&crate::props::c10::block4_of(&t1));
         let (_, b) = tokenize(&crate::props::c10::block4_of(&m2.mt_message));
-        let tag = a.iter().zip(b.iter()).find(|(p, q)| p != q).map(|(p, _)| p.tag.clone()).unwrap_or("-".into());
+        let tag = a
+            .iter()
+            .zip(b.iter())
+            .find(|(p, q)| p != q)
+            .map(|(p, _)| p.tag.clone())
+            .unwrap_or("-".into());
         out.push(viol(format!("C02|msg|MT{}|text-not-fixed|{}", c.mt, tag), format!("serialising the second parse does not reproduce the first serialisation at {tag}:\n{}\nvs\n{}", t1, m2.mt_message)));
     }
     out
@@ -147,7 +189,61 @@ pub struct FieldRt {
 }
 
 fn letter_of_tag(tag: &str) -> Option<String> {
-    if tag.len() > 2 { Some(tag[2..].to_string()) } else { None }
+    if tag.len() > 2 {
+        Some(tag[2..].to_string())
+    } else {
+        None
+    }
+}
+
+/// deterministic grid: per field type (enums: per member x {its letter, no letter}), K fixed valid
+/// base contents and all their systematic near-miss mutations
+pub fn field_grid(shard: usize, k: u64) -> Vec<FieldRt> {
+    let f = &FIELDS[shard % FIELDS.len()];
+    let mut out = Vec::new();
+    let members: Vec<(Option<String>, Option<String>, &str)> =
+        match FAMILIES.iter().find(|(e, _, _)| *e == f.name) {
+            Some((_, base, mem)) => mem
+                .iter()
+                .flat_map(|(l, conc)| {
+                    vec![
+                        (Some(l.to_string()), Some(base.to_string()), *conc),
+                        (None, Some(base.to_string()), *conc),
+                    ]
+                })
+                .collect(),
+            None => vec![(None, None, f.name)],
+        };
+    for (letter, base, conc) in members {
+        for j in 0..k {
+            let data: Vec<u32> = (0..256)
+                .map(|i| {
+                    crate::choice::splitmix(0xC02 ^ ((shard as u64) << 20) ^ (j << 10) ^ i) as u32
+                })
+                .collect();
+            let mut src = Src::new(&data);
+            let g = spec_of(conc).g.generate(&mut src);
+            out.push(FieldRt {
+                ty: f.name.to_string(),
+                letter: letter.clone(),
+                base: base.clone(),
+                content: g.text.clone(),
+                origin: "valid".into(),
+                spec_ty: conc.to_string(),
+            });
+            for m in all_mutations(conc, &g) {
+                out.push(FieldRt {
+                    ty: f.name.to_string(),
+                    letter: letter.clone(),
+                    base: base.clone(),
+                    content: m.content,
+                    origin: m.origin,
+                    spec_ty: conc.to_string(),
+                });
+            }
+        }
+    }
+    out
 }
 
 pub fn gen_field_case(shard: usize, src: &mut Src) -> FieldRt {
@@ -160,28 +256,62 @@ pub fn gen_field_case(shard: usize, src: &mut Src) -> FieldRt {
             _ => random_content(conc, src),
         };
         let with_letter = src.chance(3, 4);
-        FieldRt { ty: f.name.to_string(), letter: if with_letter { Some(letter.to_string()) } else { None }, base: Some(base.to_string()), content: c.content, origin: c.origin, spec_ty: conc.to_string() }
+        FieldRt {
+            ty: f.name.to_string(),
+            letter: if with_letter {
+                Some(letter.to_string())
+            } else {
+                None
+            },
+            base: Some(base.to_string()),
+            content: c.content,
+            origin: c.origin,
+            spec_ty: conc.to_string(),
+        }
     } else {
         let c = match src.below(4) {
             0 | 1 => gen_valid(f.name, src),
             2 => mutate(f.name, src),
             _ => random_content(f.name, src),
         };
-        FieldRt { ty: f.name.to_string(), letter: None, base: None, content: c.content, origin: c.origin, spec_ty: f.name.to_string() }
+        FieldRt {
+            ty: f.name.to_string(),
+            letter: None,
+            base: None,
+            content: c.content,
+            origin: c.origin,
+            spec_ty: f.name.to_string(),
+        }
     }
 }
 
 pub fn field_oracle(c: &FieldRt, obs: &mut Obs) -> Vec<Violation> {
+    field_oracle_with(c, obs, false)
+}
+
+pub fn field_oracle_with(c: &FieldRt, obs: &mut Obs, judge_undetermined: bool) -> Vec<Violation> {
     let mut out = Vec::new();
     let ops = field_ops(&c.ty);
     // contents outside the documented format are C05's domain: their acceptance is the
     // violation there, what happens to them afterwards is not judged here
-    if spec_of(&c.spec_ty).g.verdict(&c.content) == crate::spec::Verdict::MustReject {
-        obs.excluded("field:outside-documented-format");
+    if crate::refs::has_long_number(&c.content) {
+        obs.excluded("amount-beyond-f64-precision (C06 reports it)");
         return out;
     }
+    match spec_of(&c.spec_ty).g.verdict(&c.content) {
+        crate::spec::Verdict::MustReject => {
+            obs.excluded("field:outside-documented-format");
+            return out;
+        }
+        crate::spec::Verdict::Undetermined if !judge_undetermined => {
+            // judged only in the deterministic grid, so that such signatures do not depend on the seed
+            obs.excluded("field:undetermined-format (judged in the grid sub-check)");
+            return out;
+        }
+        _ => {}
+    }
     let parse = |content: &str, letter: &Option<String>| match letter {
-        Some(l) => (ops.parse_variant)(content, if l.is_empty() { None } else { Some(l.as_str()) }, c.base.as_deref()),
+        Some(l) => (ops.parse_variant)(content, Some(l.as_str()), c.base.as_deref()),
         None => (ops.parse)(content),
     };
     let v1 = match parse(&c.content, &c.letter) {
@@ -193,30 +323,57 @@ pub fn field_oracle(c: &FieldRt, obs: &mut Obs) -> Vec<Violation> {
     };
     obs.class("field:accepted");
     obs.nontrivial_str(&format!("{}|{:?}|{}", c.ty, c.letter, c.content));
-    obs.sample(&format!("field:{}", c.origin.split(':').next().unwrap_or("")), || json!({"field": c.ty, "letter": c.letter, "content": c.content}));
+    obs.sample(
+        &format!("field:{}", c.origin.split(':').next().unwrap_or("")),
+        || json!({"field": c.ty, "letter": c.letter, "content": c.content}),
+    );
     let (tag, c1) = match split_swift(&v1.swift) {
         Some(x) => x,
         None => {
-            out.push(viol(format!("C02|field|{}|no-tag-prefix", c.ty), format!("to_swift_string {:?}", v1.swift)));
+            out.push(viol(
+                format!("C02|field|{}|no-tag-prefix", c.ty),
+                format!("to_swift_string {:?}", v1.swift),
+            ));
             return out;
         }
     };
     // re-parse with the letter of the emitted tag (enums) or plainly (concrete types)
-    let letter2 = if ops.is_enum { Some(letter_of_tag(&tag).unwrap_or_default()) } else { None };
+    let letter2 = if ops.is_enum {
+        Some(letter_of_tag(&tag).unwrap_or_default())
+    } else {
+        None
+    };
     let v2 = match parse(&c1, &letter2) {
         Ok(v) => v,
         Err(e) => {
             if !e.is_panic() {
-                out.push(viol(format!("C02|field|{}|reparse-rejected", c.ty), format!("input {:?} serialised as {:?} which is rejected: {}", c.content, v1.swift, e.text())));
+                out.push(viol(
+                    format!("C02|field|{}|reparse-rejected", c.ty),
+                    format!(
+                        "input {:?} serialised as {:?} which is rejected: {}",
+                        c.content,
+                        v1.swift,
+                        e.text()
+                    ),
+                ));
             }
             return out;
         }
     };
     if v2.json != v1.json {
-        out.push(viol(format!("C02|field|{}|value-differs", c.ty), format!("input {:?}: first parse {} second parse {}", c.content, v1.json, v2.json)));
+        out.push(viol(
+            format!("C02|field|{}|value-differs", c.ty),
+            format!(
+                "input {:?}: first parse {} second parse {}",
+                c.content, v1.json, v2.json
+            ),
+        ));
     }
     if v2.swift != v1.swift {
-        out.push(viol(format!("C02|field|{}|text-not-fixed", c.ty), format!("input {:?}: {:?} then {:?}", c.content, v1.swift, v2.swift)));
+        out.push(viol(
+            format!("C02|field|{}|text-not-fixed", c.ty),
+            format!("input {:?}: {:?} then {:?}", c.content, v1.swift, v2.swift),
+        ));
     }
     out
 }
@@ -224,15 +381,39 @@ pub fn field_oracle(c: &FieldRt, obs: &mut Obs) -> Vec<Violation> {
 pub fn run(ctx: &Ctx) {
     ctx.add_rule("message level: per type, valid / structurally mutated / numerically non-canonical texts inside an envelope, LF/CRLF; field level: per field type (114, enums with and without option letter), valid / near-miss / random contents; non-trivial = accepted by the library; distinct by (type, input); oracle: parse -> serialise -> parse gives an equal value (serde_json of the whole message incl. headers) and the same text byte for byte");
     let to_json = |c: &MutCase| serde_json::to_value(c).unwrap();
-    ctx.run_generated("msg", MSGS.len(), ctx.n(2000, 50000), 1800, &|sh, src: &mut Src| gen_msg_case(mt_of_shard(sh), src), &msg_oracle, &to_json);
+    ctx.run_generated(
+        "msg",
+        MSGS.len(),
+        ctx.n(2000, 50000),
+        1800,
+        &|sh, src: &mut Src| gen_msg_case(mt_of_shard(sh), src),
+        &msg_oracle,
+        &to_json,
+    );
     let to_json2 = |c: &FieldRt| serde_json::to_value(c).unwrap();
-    ctx.run_generated("field", FIELDS.len(), ctx.n(2000, 50000), 300, &gen_field_case, &field_oracle, &to_json2);
+    ctx.run_generated(
+        "field",
+        FIELDS.len(),
+        ctx.n(2000, 50000),
+        300,
+        &gen_field_case,
+        &field_oracle,
+        &to_json2,
+    );
+    let k = ctx.n(4, 20) as u64;
+    ctx.run_enumerated(
+        "field-grid",
+        FIELDS.len(),
+        &|sh| field_grid(sh, k),
+        &|c: &FieldRt, obs: &mut Obs| field_oracle_with(c, obs, true),
+        &to_json2,
+    );
 }
 
 pub fn replay(_ctx: &Ctx, sub: &str, case: &Value) -> Vec<Violation> {
-    if sub == "field" {
+    if sub == "field" || sub == "field-grid" {
         let c: FieldRt = serde_json::from_value(case.clone()).expect("replay case");
-        field_oracle(&c, &mut Obs::default())
+        field_oracle_with(&c, &mut Obs::default(), true)
     } else {
         let c: MutCase = serde_json::from_value(case.clone()).expect("replay case");
         msg_oracle(&c, &mut Obs::default())
